@@ -111,7 +111,7 @@ Theorem C15_wire_form :
   (forall e : ecs,
      opt_wire (OEcs e) =
      let body := u16b (a_fam (e_addr e)) ++ u8b (e_src e) ++ u8b (e_scope e) ++
-                 takeN (N.max (e_src e) (e_scope e) / 8 + 1) (a_oct (e_addr e)) in
+                 takeN (N.max (addr_significant (a_oct (e_addr e))) ((e_src e + 7) / 8)) (a_oct (e_addr e)) in
      u16b 8 ++ u16b (lenN body) ++ body) /\
   (forall c : cookie,
      opt_wire (OCookie c) =
@@ -203,16 +203,23 @@ Example C15_padding_zero_example :
   rr_edns_option (mk_main [0; 12; 0; 2; 0; 1]) = DErr (EPaddingZero, [1]) 8.
 Proof. vm_compute. repeat split. Qed.
 
-(* KNOWN FINDING KF2: 192.0.2.0/24 is written with FOUR address octets (24/8 + 1), where RFC 7871
-   section 6 asks for the three octets that hold the 24 prefix bits.  Both forms decode to the same value. *)
+(* Known finding KF2, repaired for this case: 192.0.2.0/24 is written with the THREE address octets that
+   hold the 24 prefix bits (RFC 7871 section 6); the four-octet form still decodes to the same value.
+   What remains of KF2 (see C17): an address with a non-zero octet beyond ceil(source/8) — possible only
+   with scope > source — is written up to that octet: 10.1.0.0 source 8 scope 24 with two octets. *)
 Example C15_known_ecs_octet_count :
   let e := {| e_src := 24; e_scope := 0; e_addr := {| a_fam := 1; a_oct := [192; 0; 2; 0] |} |} in
+  let e2 := {| e_src := 8; e_scope := 24; e_addr := {| a_fam := 1; a_oct := [10; 1; 0; 0] |} |} in
   enc_edns_option (OEcs e) e_init =
-    EOk tt {| e_buf := [0; 8; 0; 8; 0; 1; 24; 0; 192; 0; 2; 0]; e_idx := []; e_names := [] |} /\
+    EOk tt {| e_buf := [0; 8; 0; 7; 0; 1; 24; 0; 192; 0; 2]; e_idx := []; e_names := [] |} /\
+  rr_edns_option (mk_main [0; 8; 0; 7; 0; 1; 24; 0; 192; 0; 2]) =
+    DOk (OEcs e) {| d_rest := []; d_off := 11; d_len := 11; d_cost := 18 |} /\
   rr_edns_option (mk_main [0; 8; 0; 8; 0; 1; 24; 0; 192; 0; 2; 0]) =
     DOk (OEcs e) {| d_rest := []; d_off := 12; d_len := 12; d_cost := 20 |} /\
-  rr_edns_option (mk_main [0; 8; 0; 7; 0; 1; 24; 0; 192; 0; 2]) =
-    DOk (OEcs e) {| d_rest := []; d_off := 11; d_len := 11; d_cost := 18 |}.
+  enc_edns_option (OEcs e2) e_init =
+    EOk tt {| e_buf := [0; 8; 0; 6; 0; 1; 8; 24; 10; 1]; e_idx := []; e_names := [] |} /\
+  rr_edns_option (mk_main [0; 8; 0; 6; 0; 1; 8; 24; 10; 1]) =
+    DOk (OEcs e2) {| d_rest := []; d_off := 10; d_len := 10; d_cost := 16 |}.
 Proof. vm_compute. repeat split. Qed.
 
 (* TTL word 0x00008000: DO set; 0x00000001: a reserved bit, refused *)
@@ -229,10 +236,10 @@ Example C15_record_example :
               r_data := ROpt 1232 0 0 true
                 [OCookie {| c_client := [1; 2; 3; 4; 5; 6; 7; 8]; c_server := None |}; OPadding 3;
                  OEcs {| e_src := 24; e_scope := 0; e_addr := {| a_fam := 1; a_oct := [192; 0; 2; 0] |} |}] |} in
-  enc_RR r = Ok [0; 0; 41; 4; 208; 0; 0; 128; 0; 0; 31; 0; 10; 0; 8; 1; 2; 3; 4; 5; 6; 7; 8;
-                 0; 12; 0; 3; 0; 0; 0; 0; 8; 0; 8; 0; 1; 24; 0; 192; 0; 2; 0] /\
-  (exists s, dec_RR [0; 0; 41; 4; 208; 0; 0; 128; 0; 0; 31; 0; 10; 0; 8; 1; 2; 3; 4; 5; 6; 7; 8;
-                     0; 12; 0; 3; 0; 0; 0; 0; 8; 0; 8; 0; 1; 24; 0; 192; 0; 2; 0] = DOk r s) /\
+  enc_RR r = Ok [0; 0; 41; 4; 208; 0; 0; 128; 0; 0; 30; 0; 10; 0; 8; 1; 2; 3; 4; 5; 6; 7; 8;
+                 0; 12; 0; 3; 0; 0; 0; 0; 8; 0; 7; 0; 1; 24; 0; 192; 0; 2] /\
+  (exists s, dec_RR [0; 0; 41; 4; 208; 0; 0; 128; 0; 0; 30; 0; 10; 0; 8; 1; 2; 3; 4; 5; 6; 7; 8;
+                     0; 12; 0; 3; 0; 0; 0; 0; 8; 0; 7; 0; 1; 24; 0; 192; 0; 2] = DOk r s) /\
   (* a non-root owner is refused *)
   dec_RR [1; 97; 0; 0; 41; 4; 208; 0; 0; 0; 0; 0; 0] = DErr (EOPTDomainName, []) 13.
 Proof.
